@@ -231,6 +231,8 @@ def durable_image(ops, k, root, pattern, rng):
             last_fsync[ops[i]["path"]] = i
     img = S.Image(root)
     unsynced_cat = False
+    wal_lost = False      # an unsynced WAL write was dropped or torn …
+    wal_garbage = False   # … and a later WAL write survived: the durable WAL has a hole / garbage
     for i in range(k):
         op = ops[i]
         kd = op["kind"]
@@ -247,13 +249,20 @@ def durable_image(ops, k, root, pattern, rng):
         p = op["path"]
         if p.endswith("category_name") or ((p.endswith(".bin") or p.endswith(".bin.tmp")) and (op["off"] or 0) < HEADERSIZE):
             unsynced_cat = True
+        is_wal = p.endswith(".walfile")
         if pattern == "rand" and rng.random() < 0.5:
             d = op["data"]
             if len(d) > 512 and rng.random() < 0.5:
                 cut = 512 * rng.randrange(1, (len(d) + 511) // 512)
                 op = dict(op, data=d[:cut])
+                if is_wal:
+                    wal_lost = True
+            if is_wal and wal_lost:
+                wal_garbage = True
             img.apply(op)
-    return img, unsynced_cat
+        elif is_wal:
+            wal_lost = True
+    return img, ("u" if unsynced_cat else "") + ("g" if wal_garbage else "")
 
 
 def run(pid, cfg, seed, tier, workdir, log, harness, driver, replay_lines=None):
@@ -351,15 +360,17 @@ def run(pid, cfg, seed, tier, workdir, log, harness, driver, replay_lines=None):
                         img.apply(ops[applied])
                     applied += 1
                 snap = img.clone()
-                patterns = [("-", snap)]
+                patterns = [("-", snap, None)]
             else:
                 prng = random.Random(seed * 1000003 + hi * 1009 + k)
-                im0, ucat = durable_image(ops, k, root, "none", prng)
-                patterns = [("none", im0)]
+                im0, fl0 = durable_image(ops, k, root, "none", prng)
+                patterns = [("none", im0, fl0)]
                 for r in range(wcfg.get("rand_patterns", {}).get(tier, 1 if tier == "quick" else 4)):
-                    patterns.append(("rand%d" % r, durable_image(ops, k, root, "rand", prng)[0]))
-                jj = "u" if ucat else "*"
-            for pname, snap in patterns:
+                    imr, flr = durable_image(ops, k, root, "rand", prng)
+                    patterns.append(("rand%d" % r, imr, flr))
+            for pname, snap, flags in patterns:
+                if flags is not None:
+                    jj = flags or "*"
                 dest = os.path.join(workdir, "img-%d-%d-%s" % (hi, k, pname))
                 line = "%s %d %d %s %s %s" % (wcfg.get("op", "walcrash"), year, a, jj, ",".join(keys), " ".join(steps))
                 tagl = "%s,k=%d/%d,mode=%s,pattern=%s,inflight=%s%s" % (
